@@ -192,7 +192,7 @@ func init() {
 			"per input: spans in order, inside the input, non-overlapping; (line, column) recomputed from the byte offset; Colorize / ColorizeEmbellishedText must equal the input with only SGR sequences inserted (NFA check, inputs containing ESC included); distinct = token kinds observed",
 		NumCases: func(tier string) int {
 			if tier == "thorough" {
-				return 6_000_000
+				return 1_500_000
 			}
 			return 300_000
 		},
